@@ -175,6 +175,14 @@ def table_columns(table):
     return cols
 
 
+def column_styles(table):
+    """Style name of the column declaration covering each column position."""
+    out = []
+    for c in table_columns(table):
+        out.extend([c.get(T + "style-name")] * _rep(c, REP_C))
+    return out
+
+
 def table_height(table) -> int:
     return sum(_rep(r, REP_R) for r in table_rows(table))
 
